@@ -74,7 +74,25 @@ def norm(x):
         return None
     if isinstance(x, (list, tuple)):
         x = " ".join(x)
-    return " ".join(x.split())
+    if '"' not in x:
+        return " ".join(x.split())
+    # white space INSIDE a string literal is part of the value: only what lies outside the quotes is normalised
+    # (generated string literals never contain a quote or a backslash)
+    parts = x.split('"')
+    out = []
+    for k, part in enumerate(parts):
+        if k % 2 == 1 and k < len(parts) - 1:
+            out.append(part)
+        else:
+            sp = " ".join(part.split())
+            if part[:1].isspace() and k > 0 and sp:
+                sp = " " + sp
+            if part[-1:].isspace() and k < len(parts) - 1 and sp:
+                sp = sp + " "
+            if not sp and part and 0 < k < len(parts) - 1:
+                sp = " "
+            out.append(sp)
+    return '"'.join(out).strip()
 
 
 # --------------------------------------------------------------------------------------------
@@ -728,7 +746,7 @@ def matching_rules(t, tup):
 SPACINGS = ["  ", "   ", "\t", " \t ", "\u00a0", "\u00a0 ", " \u2003"]
 
 
-def space_strings(t, rng):
+def space_strings(t, rng, drawable=False):
     """Rewrites every string value of the table into one whose white space is significant (a run of blanks, a tab, a no-break
     space inside it, a blank at its start or end) - consistently in entries, specs, allowed / output values and pools, so that
     the table means the same with the new strings. XML path only (`raw` writer): a drawing cannot carry such cells."""
@@ -740,7 +758,17 @@ def space_strings(t, rng):
             for _ in range(50):
                 k = rng.random()
                 sp = rng.choice(SPACINGS)
-                if k < 0.5 and len(sv) >= 2:
+                if drawable:
+                    # what a drawing can carry on one line of a cell: runs of ordinary blanks inside the literal
+                    sp = rng.choice(["  ", "   ", " "])
+                    if len(sv) >= 2 and k < 0.8:
+                        j = rng.randint(1, len(sv) - 1)
+                        new = sv[:j] + sp + sv[j:]
+                        if k < 0.2 and len(sv) >= 4:
+                            new = new + "  " + "y"
+                    else:
+                        new = sv + "  " + "x"
+                elif k < 0.5 and len(sv) >= 2:
                     j = rng.randint(1, len(sv) - 1)
                     new = sv[:j] + sp + sv[j:]
                 elif k < 0.7:
@@ -749,7 +777,7 @@ def space_strings(t, rng):
                     new = sv + rng.choice([" ", "  ", "\t", "\u00a0"])
                 else:
                     new = sv + sp + "x"
-                if new not in used and " ".join(new.split()) != new:
+                if new not in used and (" ".join(new.split()) != new or (drawable and " " in new)):
                     break
             used.add(new)
             m[sv] = new
